@@ -1,5 +1,6 @@
 (* allow-axioms:  *)
-From RRE Require Import Base.Sx Base.Float Base.Num Model.ExprShape Model.Forward Model.ForwardSpec Model.Grl Proofs.GrlProofs Proofs.GrlTreeProofs.
+From RRE Require Import Base.Sx Base.Float Base.Num Model.ExprShape Model.Forward Model.ForwardSpec Model.Grl Proofs.GrlProofs Proofs.GrlTreeProofs Proofs.SourceTablesProofs.
+From RRE Require Generated.Consts.
 Open Scope Z_scope.
 From RRE Require Import Properties.C04.
 Check (C04_string_literals_opaque : forall op q s, ((q =? 34) || (q =? 39)) = true -> memc q s = false -> inert op (q :: s ++ [q])).
@@ -10,6 +11,7 @@ Check (C04_top_level_separator : forall op a b, op <> 34 -> op <> 39 -> op <> 40
 Check (C04_inert_compose : forall op a b, inert op a -> inert op b -> inert op (a ++ b)).
 Check (C04_ordinary_text_inert : forall op t, forallb (ordinary op) t = true -> inert op t).
 Check (C04_condition_tree_roundtrip : forall g, wf_g g -> parse_when_text (pr_g g) = skel g).
+Check (C04_operator_tables_are_the_sources : variants_covered = true /\ printed_texts_parse_back = true /\ grl_table_is_source = true).
 Check (C04_plain_leaf_ok : forall t c r c' r', t = c :: r -> rev t = c' :: r' -> forallb ord2 t = true ->
   ws_unicode c = false -> (c =? 33) = false -> ws_unicode c' = false -> leaf_ok t).
 Check (C04_string_leaf_ok : forall a c r q s, a = c :: r -> forallb ord2 a = true -> ws_unicode c = false -> (c =? 33) = false ->
